@@ -138,6 +138,13 @@ def gen_case(rng, focus, big=False):
         for run in runs[1:]:
             run['lost'] = list(range(n))      # C02 speaks about runs from the empty environment
     case['runs'] = runs
+    if focus == 'C03' and not case.get('stages') and rng.random() < 0.06:
+        # default backend, and a task that runs a scheduler of its own (oracle only: not replayed on the model)
+        case['default_backend'] = True
+        case['no_model'] = True
+        t = rng.randrange(n)
+        for run in runs:
+            run['outcomes'][t] = 'nested'
     if nruns > 1 and rng.random() < 0.4:
         case['reuse'] = True      # the same Scheduler object schedules every run
     elif nruns > 1 and not case.get('stages') and focus != 'C04' and rng.random() < 0.4:
@@ -181,6 +188,9 @@ CORPUS = [
      'runs': [{'outcomes': ['raise', 'done', 'done'], 'strategy': 'uniform', 'seed': 35},
               {'outcomes': ['raise', 'done', 'done'], 'lost': [0, 1, 2], 'hard': [[], [], [0]], 'soft': [[], [0], []],
                'strategy': 'uniform', 'seed': 36}]},
+    # C03: default backend and a task that runs a scheduler of its own (nested scheduling calls)
+    {'n': 2, 'hard': [[], [0]], 'soft': [[], []], 'workers': 2, 'default_backend': True, 'no_model': True,
+     'runs': [{'outcomes': ['nested', 'done'], 'strategy': 'uniform', 'seed': 37}]},
     # C03: the same scheduler object schedules twice
     {'n': 2, 'hard': [[], [0]], 'soft': [[], []], 'workers': 2, 'reuse': True,
      'runs': [{'outcomes': ['done', 'done'], 'strategy': 'uniform', 'seed': 19},
@@ -563,6 +573,9 @@ def run(ctx, focus):
                              replay_case(case, run_))
             if run_.get('prep_error'):
                 ctx.mismatch(f'cannot read the prepared graphs: {run_["prep_error"]}', replay_case(case, run_))
+            if case.get('no_model'):
+                ctx.count('oracle_only_runs')
+                continue
             coq_items.append(coq_case(vcase, run_))
             owners.append((case, run_))
         sample = dict(case)
